@@ -354,7 +354,7 @@ class StubsLib(StubsBase):
         if isinstance(x, SArr):
             if x.backend == "dask":
                 ctx.events.append(("force", "np.asarray(dask)"))
-                return SArr(x.shape, x.elem, x.dtype, "numpy")
+                x = SArr(x.shape, x.elem, x.dtype, "numpy")
             if dtype is not None and self.to_dtype(dtype) != x.dtype:
                 return A.astype(ctx, x, self.to_dtype(dtype))
             return x
@@ -691,7 +691,7 @@ class StubsLib(StubsBase):
         return any(isinstance(i, SSlice) or i is None for i in items)
 
     def frame_write_arr(self, arr: SArr, what, ctx):
-        roots = [r for r in arr.owner if not r.startswith("fresh:")]
+        roots = [r for r in arr.owner if not r.startswith("fresh:") and r not in ctx.sanctioned]
         ctx.writes.append((what, sorted(arr.owner)))
         if roots:
             ctx.oblige(f"frame.array-write[{what}]", False, "frame",
